@@ -164,6 +164,7 @@ type c05World struct {
 	shapeSingleLeafAbandoned bool
 	shapeTwiceAbandoned      bool
 	shapeIdenticalRecommit   bool
+	shapeIdenticalRewrite    bool
 	padSeq                   int
 	abandoned                map[int64]int // height -> how often a block at that height was abandoned
 }
@@ -182,6 +183,9 @@ func (w *c05World) fail(v *simrt.Violation) {
 		}
 		if w.shapeIdenticalRecommit {
 			shape += "+identical-recommit-at-reused-height"
+		}
+		if w.shapeIdenticalRewrite {
+			shape += "+height-rewrites-identical-values"
 		}
 		if shape == "" {
 			shape = "no-known-shape"
@@ -309,6 +313,20 @@ func (w *c05World) commit(mode int64, h int64, batch []simrt.Op, how string) {
 		batch = append(append([]simrt.Op(nil), batch...), KVOp([]byte("mavl-acc-pad1"), []byte("p1")), KVOp([]byte("mavl-acc-pad2"), []byte("p2")))
 	}
 	child := applyModel(pst, batch)
+	if len(batch) > 0 && child.Equal(pst) {
+		// Every write of this height equals the current value: the state root is the
+		// parent's, but the touched leaves are stored again under the new height.
+		// Recorded known shape (a later pass deletes nodes the unchanged root still
+		// references). Strict runs add one fresh key so that the state does change.
+		if w.open {
+			w.shapeIdenticalRewrite = true
+			ctx.Probe("height_rewrites_identical_values")
+		} else {
+			w.padSeq++
+			batch = append(append([]simrt.Op(nil), batch...), KVOp([]byte(fmt.Sprintf("mavl-acc-rw%03d", w.padSeq)), []byte(fmt.Sprintf("w%d", w.padSeq))))
+			child = applyModel(pst, batch)
+		}
+	}
 	kvs := KVs(batch)
 	if len(kvs) == 0 && mode == 1 && h <= w.maxH {
 		// A height that was used before is re-committed without any state change
